@@ -31,6 +31,14 @@ TABLE = {
    text='(a) generated sequential histories of CONNECT/DISCONNECT/disconnect()/transport loss/CLOSE against real Server/AsyncServer, crossed with always_connect, namespaces option, function vs class-based handlers and connect handlers that accept / return False / raise ConnectionRefusedError with 0-4 arguments; a lifecycle model per (transport, namespace) decides handler counts, answers, reasons, sid freshness and membership, with broadcast probes after every termination; (b) for the asyncio server, enumerated interleavings of concurrent terminating causes at every await point of handlers and sends',
    note='threaded server explored sequentially here (its thread races are C20); empty and absent auth are not distinguished',
    tech='runtime monitoring: history + lifecycle reference model; controlled await-point scheduler for asyncio interleavings'),
+ 'C13': dict(cat='exploration',
+   text='exhaustive enumeration of the 2**6 presence combinations of the six kinds of target, crossed with ordinary/reserved events, unrelated handlers, class-method presence, sync/coroutine handlers and the four classes (4704 cases); each case delivers a real packet through the direct-drive server or the scripted engine.io client and compares the callable that ran and its argument list with a precedence table written from the documentation',
+   note='server namespaces admitted through namespaces="*"; event names are identifier-safe so that on_<event> exists; random names/arguments per case',
+   tech='runtime monitoring: exhaustive configuration grid, recorder on every registered callable, table oracle'),
+ 'C17': dict(cat='exploration',
+   text='exhaustive enumeration of 4 namespace classes x helper methods x subsets of optional parameters x {keyword, positional} x {sentinel, falsy} values x registration namespaces (9376 calls); the underlying method on the real server/client instance is replaced by a recorder that binds with the real method signature; identity of every given argument, the namespace rule and the returned value are checked',
+   note='defaults of omitted non-namespace arguments and vestigial parameters are outside the property and skipped (listed in evidence)',
+   tech='runtime monitoring: recorder bound to real signatures, exhaustive argument-subset grid'),
 }
 # filled in as checks are built; see bottom of file for the not-built reason
 
